@@ -931,7 +931,7 @@ class XsdGroup(XsdComponent, MutableSequence[ModelParticleType],
                     not xsd_type.is_dynamic_consistent(other.type):
                 reason = _("{0!r} that matches {1!r} is not consistent with local "
                            "declaration {2!r}").format(elem, xsd_element, other)
-                raise XMLSchemaValidationError(self, reason)
+                raise XMLSchemaValidationError(self, elem, reason)
 
             if not all(any(a == x for x in alternatives) for a in other.alternatives) or \
                     not all(any(a == x for x in other.alternatives) for a in alternatives):
